@@ -4,6 +4,7 @@ CONSTANTS
   NRand = 60
   BitStep = 5
   NRandSeeds = 4
+  ByteLens = {1, 2, 5, 13, 25}
   Keys <- MCKeys
   Seeds <- MCSeeds
   Obs <- ObsEmit
